@@ -221,6 +221,7 @@ func c04Run(s *Shard) {
 							c := &Case{Prop: "C04", Kind: "request", Req: c04Request(method, ids, vals, known, chose, extra),
 								Params: M{"ids": ids, "vals": vals}}
 							s.Evals++
+							s.Begin(c)
 							out := Decide(J(c.Req), nil)
 							if !out.Accepted {
 								s.Report([]Violation{viol(c, "C04/rejected", "valid utility request rejected: %s", out.Err)})
@@ -273,6 +274,7 @@ func c04Run(s *Shard) {
 		cls := append([]int{}, idx...)
 		c := &Case{Prop: "C04", Kind: "ranking", Params: M{"classes": cls}}
 		s.Evals++
+		s.Begin(c)
 		s.Report(c04CheckRanking(c))
 		s.Outcome(mx >= 1, "ranking", fmt.Sprint(cls))
 	})
